@@ -765,6 +765,42 @@ def r01_9(ctx: Ctx) -> None:
                "the hits handed to the rule evaluation are those of the genes in range", form="; ".join(txt(v)[:80] for v in srcs))
 
 
+def r01_11(ctx: Ctx) -> None:
+    """ `local_only` (set by cds(...) so that its inner formula is judged on the one gene) is handed on at every step of
+        the evaluation: inside a function that has the parameter, every call of a function of the module that also has it
+        supplies it - with the caller's own value, or with the constant True.  An omitted argument silently falls back to
+        the callee's default (False) and switches the neighbourhood search back on below that point. """
+    takers: Dict[str, List[str]] = {}
+    for qual, func in ctx.repo.functions(RP):
+        params = [a.arg for a in func.args.args + func.args.kwonlyargs]
+        if "local_only" in params:
+            takers.setdefault(qual.split(".")[-1], []).append(qual)
+    count = 0
+    for qual, func in ctx.repo.functions(RP):
+        params = [a.arg for a in func.args.args + func.args.kwonlyargs]
+        if "local_only" not in params:
+            continue
+        for call in calls(func):
+            name = last_attr(call) or call_name(call).split(".")[-1]
+            if name not in takers:
+                continue
+            callee = ctx.repo.func(RP, takers[name][0])
+            cparams = [a.arg for a in callee.args.args if a.arg not in ("self", "cls")]
+            position = cparams.index("local_only") if "local_only" in cparams else None
+            given = kwarg(call, "local_only")
+            if given is None and position is not None and position < len(call.args):
+                given = call.args[position]
+            count += 1
+            ok = given is not None and (txt(given) == "local_only" or (isinstance(given, ast.Constant) and given.value is True))
+            ctx.ob("R01.11", RP, call, qual, f"local_only handed to {name}#{count}", ok,
+                   "every evaluation step below a cds(...) group keeps judging the one gene: local_only is passed on (or forced "
+                   "to True), never left to the callee's default",
+                   detail="" if ok else ("argument omitted: the callee's default applies" if given is None else f"passes `{txt(given)}`"),
+                   form=txt(call)[:100])
+    if count < 4:
+        raise AnalysisError(f"R01.11: expected at least 4 calls handing on local_only, found {count}")
+
+
 def run(ctx: Ctx) -> None:
     ctx.rule("R01.1", "in_range is strict distance < cutoff with the ring distance iff circular; cutoff role", floor=5)
     ctx.rule("R01.2", "negation reaches every verdict of every condition class", floor=12)
@@ -785,3 +821,5 @@ def run(ctx: Ctx) -> None:
     r01_9(ctx)
     ctx.rule("R01.10", "conditions allowed inside cds(...) do not consult neighbours under local_only", floor=2)
     r01_10(ctx)
+    ctx.rule("R01.11", "local_only is handed on at every evaluation step", floor=4)
+    r01_11(ctx)
